@@ -1,4 +1,5 @@
 import PynnVerif.Proofs.DescentInv
+import PynnVerif.Proofs.GenInit
 import Mathlib.Order.Fin.Basic  -- `LinearOrder (Fin 10)` for the concrete examples at the end
 
 /-!
@@ -166,7 +167,83 @@ theorem update_reinsert (top : P) (htop : ∀ x : P, x ≤ top) (old : Graph P) 
       | none => row' = mkRow top k :=
   initFromNeighborGraph_reinsert htop old n' k hold
 
+/-! ## The generated `init_from_neighbor_graph`
+
+`Gen/Kernels.lean` (regenerated from `pynndescent_.py` on every run by `harness/translate_kernels.py`) contains
+the translation of `init_from_neighbor_graph`: two nested loops over `indices` / `distances`, every entry pushed
+with flag `0` — without looking at the index — into row `p` of the heap by the translated
+`checked_flagged_heap_push`, with write-back. -/
+
+/-- **`pynndescent_.init_from_neighbor_graph` is the model's `initFromNeighborGraph`.**  For a rectangular heap
+(`n` rows of `k ≥ 1` slots in the three arrays), `m ≤ n` rows of `w` entries in `indices` and `distances`, and
+`fuel ≥ m + w + k + 2`, the translated kernel never leaves an array, keeps the heap's shape, and the arrays it
+returns are, row for row, the model's graph.  No order axioms (`Q`: any type with decidable `≤`, `<`). -/
+theorem kernel_init_from_neighbor_graph_refines {Q : Type} [LE Q] [LT Q] [DecidableLE Q] [DecidableLT Q]
+    (k : Nat) (hk : 0 < k) (I : Array (Array Int)) (D : Array (Array Q)) (F : Array (Array Int))
+    (indices : Array (Array Int)) (distances : Array (Array Q)) (w : Nat)
+    (hI : I.size = D.size) (hF : F.size = D.size)
+    (hrect : ∀ r (h : r < D.size), D[r].size = k ∧ (I[r]'(by omega)).size = k ∧ (F[r]'(by omega)).size = k)
+    (hsz : distances.size = indices.size) (hn : indices.size ≤ D.size)
+    (hw : ∀ r (h : r < indices.size), indices[r].size = w ∧ (distances[r]'(by omega)).size = w)
+    (fuel : Nat) (hf : indices.size + w + k + 2 ≤ fuel) :
+    ∃ I' D' F', GenK.init_from_neighbor_graph fuel I D F indices distances = some (I', D', F') ∧
+      D'.size = D.size ∧ I'.size = D.size ∧ F'.size = D.size ∧
+      (∀ r (h : r < D'.size) (h' : r < I'.size) (h'' : r < F'.size),
+        D'[r].size = k ∧ I'[r].size = k ∧ F'[r].size = k) ∧
+      zipGraph D' I' F' = initFromNeighborGraph (zipGraph D I F) (indices.toList.map (·.toList))
+        (distances.toList.map (·.toList)) :=
+  init_from_neighbor_graph_refines k hk I D F indices distances w hI hF hrect hsz hn hw fuel hf
+
+/-- **`update()` starts from the old lists — on the generated kernel.**  Run the translated
+`init_from_neighbor_graph` on `make_heap(n', k)`'s arrays with the index and distance arrays of an old graph
+whose rows are well-formed (C01): it stays in bounds, and the arrays it returns hold every old row as the same
+multiset of `(index, distance)` pairs, the appended rows staying empty. -/
+theorem kernel_update_reinsert (top : P) (htop : ∀ x : P, x ≤ top) (old : Graph P) (n' k : Nat) (hk : 0 < k)
+    (hold : ∀ (r : Nat) (row : Row P), old[r]? = some row → row.size = k ∧
+      ((row.toList.filter (fun e => 0 ≤ e.idx)).map (·.idx)).Nodup ∧
+      (∀ e ∈ row, (e.idx = -1 ∧ e.prio = top) ∨ (0 ≤ e.idx ∧ e.prio < top)))
+    (indices : Array (Array Int)) (distances : Array (Array P))
+    (hIdx : indices.toList.map (·.toList) = idxRows old) (hPr : distances.toList.map (·.toList) = prioRows old)
+    (hn : old.size ≤ n') (fuel : Nat) (hf : old.size + k + k + 2 ≤ fuel) :
+    ∃ I' D' F', GenK.init_from_neighbor_graph fuel (Array.replicate n' (Array.replicate k (-1)))
+        (Array.replicate n' (Array.replicate k top)) (Array.replicate n' (Array.replicate k 0)) indices distances
+        = some (I', D', F') ∧
+      ∀ r, r < n' → ∃ row', (zipGraph D' I' F')[r]? = some row' ∧
+        match old[r]? with
+        | some row => (row'.toList.map (fun e => (e.idx, e.prio))).Perm
+                        (row.toList.map (fun e => (e.idx, e.prio)))
+        | none => row' = mkRow top k := by
+  have hm1 : indices.size = old.size := by
+    have := congrArg List.length hIdx; simpa [idxRows] using this
+  have hm2 : distances.size = old.size := by
+    have := congrArg List.length hPr; simpa [prioRows] using this
+  have hw : ∀ r (h : r < indices.size), indices[r].size = k ∧ (distances[r]'(by omega)).size = k := by
+    intro r h
+    have hr : r < old.size := by omega
+    have e1 := congrArg (fun l => (l[r]?).map List.length) hIdx
+    have e2 := congrArg (fun l => (l[r]?).map List.length) hPr
+    have hk' := (hold r old[r] (by simp [hr])).1
+    simp [idxRows, prioRows, h, hr, hk', show r < distances.size by omega] at e1 e2
+    exact ⟨e1, e2⟩
+  obtain ⟨I', D', F', h1, _, _, _, _, hz⟩ := init_from_neighbor_graph_refines k hk
+    (Array.replicate n' (Array.replicate k (-1))) (Array.replicate n' (Array.replicate k top))
+    (Array.replicate n' (Array.replicate k 0)) indices distances k (by simp) (by simp)
+    (by intro r h; simp) (by omega) (by simp; omega) hw fuel (by omega)
+  refine ⟨I', D', F', h1, ?_⟩
+  rw [hz, zipGraph_replicate, hIdx, hPr]
+  exact update_reinsert top htop old n' k hold
+
 /-! ## non-vacuity -/
+
+/-- the generated `init_from_neighbor_graph` executed by the Lean kernel: two rows of two slots re-seeded from a sorted
+old graph (`Nat` priorities, `top = 100`); the `-1` sentinel of row 1 is offered too and rejected (`100 ≥ 100`);
+a third row of `indices` for a two-row heap makes the kernel read outside the heap (`none`) -/
+example : GenK.init_from_neighbor_graph 8 #[#[-1, -1], #[-1, -1]] #[#[(100 : Nat), 100], #[100, 100]] #[#[0, 0], #[0, 0]]
+    #[#[1, 0], #[0, -1]] #[#[2, 5], #[3, 100]]
+    = some (#[#[0, 1], #[-1, 0]], #[#[5, 2], #[100, 3]], #[#[0, 0], #[0, 0]]) := by decide +kernel
+example : (GenK.init_from_neighbor_graph 8 #[#[-1], #[-1]] #[#[(100 : Nat)], #[100]] #[#[0], #[0]]
+    #[#[1], #[0], #[0]] #[#[2], #[3], #[4]]).isSome = false := by decide +kernel
+
 
 /-- `|p − q| mod 9` in `Fin 10`, `top = 9` -/
 def dist5 : Nat → Nat → Fin 10 := fun p q =>
